@@ -122,6 +122,7 @@ class Engine(object):
                 fi2.__dict__.update(fi.__dict__)
                 fi2.node = tree.body[0]
                 ast.increment_lineno(fi2.node, fi.node.lineno - 1)
+                fi2.mutated = True        # the native replay compiles THIS text (replay._real_function), not the code on disk
                 fi = fi2
             res.fi = fi
             self._run(fi, c, res)
